@@ -314,7 +314,32 @@ pub fn gen(tier: &str, seed: u64, out: &mut dyn Write) {
         let coords = distinct_coords(&mut rng, s.chars().count(), span);
         emit_path(out, &s, &coords);
     }
-    // 3. transforms: 8 numbers; per-position modes so that exact and inexact cases both occur
+    // 3a. transforms, structured: every pattern of the six coefficients over {0, 1, -1, other} (4^6 = 4096
+    //     patterns: identity, pure translation, unit scales with shear, mirrored axes, ...), two points each
+    for pat in 0..4096usize {
+        for _ in 0..2 {
+            let mut v = [0.0f64; 8];
+            let mut p = pat;
+            for x in v.iter_mut().take(6) {
+                *x = match p % 4 {
+                    0 => 0.0,
+                    1 => 1.0,
+                    2 => -1.0,
+                    _ => {
+                        let r = rng.range(2, 40) as f64;
+                        if rng.chance(1, 2) { r } else { -r / 4.0 }
+                    }
+                };
+                p /= 4;
+            }
+            v[6] = rng.range(-1000, 1000) as f64;
+            v[7] = rng.range(-1000, 1000) as f64;
+            if v[6] == 0.0 { v[6] = 7.0; }
+            if v[7] == 0.0 { v[7] = -3.0; }
+            emit_transform(out, &v);
+        }
+    }
+    // 3b. transforms: 8 numbers; per-position modes so that exact and inexact cases both occur
     let n = if thorough { 1_000_000 } else { 100_000 };
     for i in 0..n {
         let mode = match i % 5 {
